@@ -13,7 +13,14 @@ import (
 // SplitMix64: every random choice of the harness derives from one of these.
 type Rng struct{ s uint64 }
 
-func NewRng(seed uint64) *Rng { return &Rng{s: seed*0x9e3779b97f4a7c15 + 0x1234567} }
+func NewRng(seed uint64) *Rng {
+	// run the seed through the SplitMix64 finaliser first: with the raw seed as state, the stream of
+	// seed k+1 would be the stream of seed k shifted by one draw
+	z := seed + 0x9e3779b97f4a7c15
+	z = (z ^ (z >> 30)) * 0xbf58476d1ce4e5b9
+	z = (z ^ (z >> 27)) * 0x94d049bb133111eb
+	return &Rng{s: z ^ (z >> 31)}
+}
 
 func (r *Rng) U64() uint64 {
 	r.s += 0x9e3779b97f4a7c15
@@ -101,6 +108,30 @@ func EachLine(f func(fields []string) string) {
 		if len(line) > 0 {
 			fields := strings.Fields(line)
 			res := safely(f, fields)
+			fmt.Fprintln(out, res)
+			out.Flush()
+		}
+		if err != nil {
+			return
+		}
+	}
+}
+
+// Dispatch reads ops from stdin and routes each by its first token.
+func Dispatch(handlers map[string]func([]string) string) {
+	in := bufio.NewReaderSize(os.Stdin, 1<<22)
+	out := bufio.NewWriterSize(os.Stdout, 1<<16)
+	defer out.Flush()
+	for {
+		line, err := in.ReadString('\n')
+		if len(line) > 0 {
+			fields := strings.Fields(line)
+			res := "bad-op"
+			if len(fields) > 0 {
+				if h := handlers[fields[0]]; h != nil {
+					res = safely(h, fields)
+				}
+			}
 			fmt.Fprintln(out, res)
 			out.Flush()
 		}
